@@ -190,6 +190,8 @@ def alphabet(limits):
         A.append(L.tick(1000, "Q", [wrap(L.P("PBv"))]))
         A.append(L.tick(100, "SUS", [wrap(["C", 0, None])]))  # cancel that fails: the market is suspended when it executes ...
         A.append(L.tick(100, "Q", [wrap(["C", 1, None])]))  # ... 100 ms steps keep requests in flight over an update
+        # two updates in ONE package, both failing (the market is suspended when the package executes)
+        A.append(L.tick(100, "SUS", [wrap(["TX", [["U", 0, "PERSIST"], ["U", 1, "PERSIST"]], []])]))
         A.append(L.tick(1000, "Q", [wrap(["C", 0, None])]))
         A.append(L.tick(100, "T22", [wrap(["C", 0, None])]))  # cancel that fails on an open market: the order is matched while it is in flight
         A.append(L.tick(1000, "Q", [wrap(["R", 0, 2.3])]))
